@@ -255,19 +255,7 @@ fn gen_mutation(rng: &mut Rng, es: &[MEntity], ctx: &UidCtx, allow_k1: bool) -> 
         if rng.chance(1, 20) && vals.len() >= 2 { if let (MV::Var(x), true) = (vals[0].1.clone(), matches!(vals[1].1, MV::Var(_))) { vals[1].1 = MV::Var(x); } } // one variable, two fields
         if rng.chance(1, 15) { params.push((90, PV::Int)); }                                            // unused parameter
         let m = Mutation { ent, vals, params };
-        // the model picks Err/Panic by text order where the code iterates a hash map: never mix a
-        // panic field (null on nullable Json) with a field whose assembly fails
-        let k1 = m.vals.iter().any(|(r, v)| matches!(r, FRef::Field(i) if *i < e.decl.len() && e.decl[*i].1 == FT::Json && e.decl[*i].2 == NL::Nullable)
-            && (matches!(v, MV::Null) || matches!(v, MV::Var(x) if m.params.iter().any(|(y, p)| y == x && matches!(p, PV::Null)))));
-        if k1 && !allow_k1 { continue; }
-        if k1 {
-            let other_fails = m.vals.iter().any(|(r, v)| match (r, v) {
-                (FRef::Field(i), _) if *i >= e.decl.len() => false,
-                (FRef::Field(i), MV::Var(x)) => m.params.iter().any(|(y, p)| y == x && (matches!(p, PV::Float(false)) || (e.decl[*i].1 == FT::Json && matches!(p, PV::Str(s) if serde_json::from_str::<serde_json::Value>(s).is_err())))),
-                (FRef::Field(_), MV::Float(false)) => true,
-                _ => false });
-            if other_fails { continue; }
-        }
+        let _ = allow_k1; // null on a nullable Json field is an ordinary valid value since 8ac9d00
         return m;
     }
 }
@@ -420,15 +408,15 @@ async fn main() {
     }
     let jn = ent_idx("PJsonNullable");
     let mut directed: Vec<(Mutation, &str)> = vec![
-        (Mutation { ent: jn, vals: vec![(FRef::Field(0), MV::Var(1))], params: vec![(1, PV::Null)] }, "K1 null parameter on a nullable Json field"),
-        (Mutation { ent: jn, vals: vec![(FRef::Field(0), MV::Null)], params: vec![] }, "K1 literal null on a nullable Json field"),
+        (Mutation { ent: jn, vals: vec![(FRef::Field(0), MV::Var(1))], params: vec![(1, PV::Null)] }, "former K1: null parameter on a nullable Json field (fixed 8ac9d00, must be Ok)"),
+        (Mutation { ent: jn, vals: vec![(FRef::Field(0), MV::Null)], params: vec![] }, "former K1: literal null on a nullable Json field (fixed 8ac9d00, must be Ok)"),
         (Mutation { ent: jn, vals: vec![(FRef::Field(0), MV::Var(1))], params: vec![(1, PV::Str("[1, 2]".into()))] }, "json parameter"),
         (Mutation { ent: jn, vals: vec![(FRef::Field(0), MV::Var(1))], params: vec![(1, PV::Str("{".into()))] }, "invalid json parameter"),
         (Mutation { ent: ent_idx("PJsonNotNull"), vals: vec![(FRef::Field(0), MV::Var(1))], params: vec![(1, PV::Null)] }, "null on a not nullable Json field"),
         (Mutation { ent: ent_idx("PStrNullable"), vals: vec![(FRef::Field(0), MV::Var(1))], params: vec![(1, PV::Null)] }, "null on a nullable String field"),
         (Mutation { ent: ent_idx("PFloatNullable"), vals: vec![(FRef::Field(0), MV::Var(1))], params: vec![(1, PV::Float(false))] }, "NaN parameter"),
         (Mutation { ent: ent_idx("M1"), vals: vec![(FRef::Id, MV::Str(ctx.rows[0].clone())), (FRef::Field(4), MV::Str("upd".into()))], params: vec![] }, "update of an existing row"),
-        (Mutation { ent: ent_idx("M1"), vals: vec![(FRef::Id, MV::Var(1)), (FRef::Field(5), MV::Var(2))], params: vec![(1, PV::Str(ctx.rows[0].clone())), (2, PV::Null)] }, "K1 on the update path"),
+        (Mutation { ent: ent_idx("M1"), vals: vec![(FRef::Id, MV::Var(1)), (FRef::Field(5), MV::Var(2))], params: vec![(1, PV::Str(ctx.rows[0].clone())), (2, PV::Null)] }, "former K1 on the update path (must be Ok)"),
         (Mutation { ent: ent_idx("M1"), vals: vec![(FRef::RoomId, MV::Var(1)), (FRef::Field(4), MV::Str("in room".into()))], params: vec![(1, PV::Str(ctx.room.clone().unwrap()))] }, "creation in a room the caller may write"),
         (Mutation { ent: ent_idx("M1"), vals: vec![(FRef::RoomId, MV::Var(1))], params: vec![(1, PV::Null)] }, "null room_id"),
         (Mutation { ent: ent_idx("M2"), vals: vec![(FRef::Field(6), MV::Str("n".into()))], params: vec![] }, "defaults filled"),
@@ -437,7 +425,7 @@ async fn main() {
         (Mutation { ent: ent_idx("PBase64Nullable"), vals: vec![(FRef::Field(0), MV::Var(1))], params: vec![(1, PV::Bin("AAAA".into()))] }, "Binary value for a Base64 field"),
     ];
     let n_dir = directed.len();
-    let n_rand = scale(500, 7000);
+    let n_rand = scale(400, 7000);
     let mut verdicts = [0usize; 4];
     let mut fresh_instances = 1usize;
     for i in 0..(n_dir + n_rand) {
@@ -472,7 +460,7 @@ async fn main() {
         let mut texts = vec![];
         for m in &steps { let (o, p) = run_mutation(&inst, m, &es).await; obs.push(o); obs.push(p); texts.push(m.text(&es)); }
         let terms: Vec<String> = steps.iter().map(|m| m.coq(&es, &ctx0)).collect();
-        out.push(Case { kind: "mut-seq".into(), coq: format!("CMutSeq {}", glist(&terms)), obs, meta: json!({"steps": texts, "what": if i == 0 { "reader pool exhausted by K1" } else { "random sequence" }}) });
+        out.push(Case { kind: "mut-seq".into(), coq: format!("CMutSeq {}", glist(&terms)), obs, meta: json!({"steps": texts, "what": if i == 0 { "former K1 eight times against one instance: the reader pool must stay intact" } else { "random sequence" }}) });
         inst.healthy = false;
     }
     inst.close();
